@@ -72,8 +72,8 @@ class AllCombinations(FunctionContract):
 
     def shapes(self, level):
         if self.kind == "Sums":     # one ghost item per bin: the sums are arbitrary non-negative reals
-            return [(k, 1) for k in ((1, 2, 3) if level == "quick" else (1, 2, 3, 4))]
-        return [(1, 0), (1, 1), (2, 0), (2, 1), (3, 0)] + ([(3, 1)] if level == "thorough" else [])
+            return [(k, 1) for k in (1, 2, 3)]          # 4 bins (24 pairings, symbolic sums) does not finish within the budget
+        return [(1, 0), (1, 1), (2, 0), (2, 1), (3, 0)]
 
     def shape_text(self, s):
         return f"{self.kind} manager, {s[0]} bins in each array" + (f", {s[1]} item(s) per bin" if self.kind == "Contents" else "")
